@@ -241,9 +241,23 @@ func plan(thorough bool) []planned {
 		if *flagOnly != "" && !strings.Contains(pr.Name, *flagOnly) {
 			continue
 		}
-		cfgs := stressConfigs()
-		if !pr.Stress {
+		var cfgs []Config
+		switch {
+		case pr.Stress:
+			cfgs = stressConfigs()
+		case pr.Diamond:
+			cfgs = diamondConfigs()
+		default:
 			cfgs = configsFor(pr.P, thorough)
+			if pr.PragmaOnly && !thorough {
+				var only []Config
+				for _, c := range cfgs {
+					if len(c.Dev) == 0 || strings.HasPrefix(c.Dev[0], "pragma=") {
+						only = append(only, c)
+					}
+				}
+				cfgs = only
+			}
 		}
 		for _, c := range cfgs {
 			if *flagCfg != "" && len(c.Dev) > 0 && !strings.Contains(c.ID(), *flagCfg) {
